@@ -692,9 +692,7 @@ class List(list, base.Symbolic, pg_typing.CustomTyping):
     if n <= 0:
       self.clear()
     else:
-      items = list(self.sym_values())
-      for _ in range(n - 1):
-        self.extend(items)
+      self.extend(list(self.sym_values()) * (n - 1))
     return self
 
   def copy(self) -> 'List':
